@@ -4,6 +4,7 @@ package c14
 import (
 	stdjson "encoding/json"
 	"fmt"
+	jlib "github.com/jsightapi/jsight-schema-go-library"
 	"strings"
 	"time"
 
@@ -22,7 +23,7 @@ func init() {
 	ev.Register(&ev.Check{
 		ID:          "C14",
 		Level:       "exploration",
-		Rule:        "accepted texts S (all rule-free JS-core renderings <= 3 nodes in canonical and compact layout, annotated/noted variants ending in every token class, type shortcuts, enum rule texts incl. comments, JSON documents, regex tokens) x separators {none, space, tab, LF, CRLF, space-LF-space, LF-LF} x trailing texts from a directive-like alphabet {x, GET /, TYPE @a, Body, 200, @a, :, ',', }, ], \"q\"} restricted to the two admitted shapes (blank/line break then foreign text; a foreign byte directly after a closing bracket or quote): Len must equal len(S); plus EVERY truncation of every plain-JSON S: a lexically incomplete prefix (reference PDA live and not accepting) must make Len fail. Non-trivial = distinct (role, S, separator, trailing text).",
+		Rule:        "accepted texts S (all rule-free JS-core renderings <= 3 nodes in canonical and compact layout, annotated/noted variants ending in every token class, type shortcuts, enum rule texts incl. comments, JSON documents, regex tokens) x separators {none, space, tab, LF, CRLF, space-LF-space, LF-LF} x trailing texts from a directive-like alphabet {x, GET /, TYPE @a, Body, 200, @a, :, ',', }, ], \"q\"} restricted to the two admitted shapes (blank/line break then foreign text; a foreign byte directly after a closing bracket or quote): Len must equal len(S), on a fresh object and on an object that has been used before (after Check / GetAST / Values / Pattern, and for documents after the stream was read to its end); plus EVERY truncation of every plain-JSON S: a lexically incomplete prefix (reference PDA live and not accepting) must make Len fail. Non-trivial = distinct (role, S, separator, trailing text).",
 		Run:         run,
 		Replay:      replay,
 		QuickBudget: 70 * time.Second,
@@ -50,15 +51,50 @@ func lenOf(role, text string) (n uint, err error) {
 	}()
 	switch role {
 	case "schema":
-		return jschema.New("s", text).Len()
+		n, err = jschema.New("s", text).Len()
+		// Len must not depend on what was asked of the object before
+		o := jschema.New("s", text)
+		_ = o.Check()
+		_, _ = o.GetAST()
+		return same(n, err, "after Check and GetAST", o.Len)
 	case "json":
-		return json.New("d", text, json.AllowTrailingNonSpaceCharacters()).Len()
+		mk := func() jlib.Document { return json.New("d", text, json.AllowTrailingNonSpaceCharacters()) }
+		n, err = mk().Len()
+		o := mk()
+		_ = o.Check()
+		if n, err = same(n, err, "after Check", o.Len); err != nil && strings.HasPrefix(err.Error(), "UNSTABLE") {
+			return n, err
+		}
+		o = mk()
+		for i := 0; i < 10*len(text)+10; i++ {
+			if _, e := o.NextLexeme(); e != nil {
+				break
+			}
+		}
+		return same(n, err, "after the document was read through NextLexeme", o.Len)
 	case "enum":
-		return enum.New("e", text).Len()
+		n, err = enum.New("e", text).Len()
+		o := enum.New("e", text)
+		_ = o.Check()
+		_, _ = o.Values()
+		return same(n, err, "after Check and Values", o.Len)
 	case "regex":
-		return regex.New("r", text).Len()
+		n, err = regex.New("r", text).Len()
+		o := regex.New("r", text)
+		_, _ = o.Pattern()
+		_, _ = o.Example()
+		return same(n, err, "after Pattern and Example", o.Len)
 	}
 	return 0, fmt.Errorf("unknown role")
+}
+
+// same: the Len of an object with a history must equal the Len of a fresh one.
+func same(n uint, err error, what string, again func() (uint, error)) (uint, error) {
+	n2, err2 := again()
+	if (err == nil) != (err2 == nil) || (err == nil && n != n2) {
+		return n, fmt.Errorf("UNSTABLE: Len on a fresh object = %d (%v), %s = %d (%v)", n, err, what, n2, err2)
+	}
+	return n, err
 }
 
 var seps = []string{"", " ", "\t", "\n", "\r\n", " \n ", "\n\n", "  ", "\r\n\r\n"}
@@ -102,6 +138,9 @@ func evalCase(cs caseT) (string, string) {
 	if err != nil {
 		if strings.HasPrefix(err.Error(), "PANIC") {
 			return "panic", fmt.Sprintf("%s Len(%q) panics: %v", cs.Role, in, err)
+		}
+		if strings.HasPrefix(err.Error(), "UNSTABLE") {
+			return "len-history", fmt.Sprintf("%s %q: %v", cs.Role, in, err)
 		}
 		return "error", fmt.Sprintf("%s Len(%q) fails (%v) although the text begins with the complete %s %q", cs.Role, in, firstLine(err.Error()), cs.Role, cs.S)
 	}
